@@ -187,8 +187,10 @@ class Driver:
                         a = i + 1
                         break
             b = self.stream.abs_pos if self.kind == 'K3' else -1
-        elif code in (ERR, CRASH):
-            self.detail.append(payload)
+        else:
+            b = self.stream.abs_pos if self.kind == 'K3' else -1      # where the pending read starts
+            if code in (ERR, CRASH):
+                self.detail.append(payload)
         if code in (STOP, EOS, ERR, CRASH):
             self.done = True
         self.ev += [code, a, b]
